@@ -142,6 +142,22 @@ def splice_shape(ctx: Ctx, I: Interp) -> None:
         if rec is None:
             continue
         start = rec.__dict__.get("body_effect_start", 0)
+        from .c08 import builder_adds
+        adds = builder_adds(l.effects[start:])
+        if adds and not any(e.kind in ("store_item", "store_slice") and not isinstance(e.target, SList) for e in l.effects[start:]):
+            # builder form: a TagList expansion contributes its normalised nodes, any other expansion itself
+            tl = [lbl for a, lbl in l.atoms if isinstance(a, tuple) and a[0] == "isinstance" and "TagList" in str(a[2])]
+            for a in adds:
+                many = a.get("many")
+                if many is not None:
+                    n += 1
+                    san = isinstance(many, SObj) and (many.meta.get("call") or {}).get("func") is not None and many.meta["call"]["func"].qual == "_tagchilds_to_tagnodes"
+                    ctx.check(san and tl == ["isinstance TagList"], "C09.splice", "a TagList expansion contributes its normalised nodes", TLT,
+                              f"adds all of {short(many)} under {tl}", f"the nodes added for an expansion are {short(many)} (under {tl}): not the normalised nodes of a returned TagList")
+                elif "one" in a:
+                    ctx.check(tl != ["isinstance TagList"], "C09.splice", "a non-list expansion takes the object's place", TLT, f"adds {short(a['one'])} under {tl}",
+                              "a TagList expansion is stored as a single nested element instead of being spliced")
+            continue
         for e in l.effects[start:]:
             if e.kind == "store_slice":
                 n += 1
